@@ -1008,7 +1008,7 @@ func buildEvidence(prop, tier string, seed int64, ps *PropSpec, results []runRes
 		"unwinding_failures": countPrefix(inconclusive, "unwinding failure"),
 		"solver":             "z3 4.8.12 (incremental, one process per worker; unknown results re-decided one-shot)",
 		"solver_time_s":      float64(st.Nanos) / 1e9, "queries": st.Queries, "queries_sat": st.SatN, "queries_unsat": st.UnsatN,
-		"queries_unknown": st.UnknownN, "solver_errors": st.Errors, "oneshot_fallbacks": st.Fallbacks,
+		"queries_unknown": st.UnknownN, "solver_errors": st.Errors, "oneshot_fallbacks": st.Fallbacks, "models_rejected_by_evaluation": st.BadModels,
 		"cross_solvers": cross, "stubs": ps.Stubs, "outside_claim": ps.Outside, "runs": perRun,
 		"interpreted_instructions": steps, "symbolic_mul_div": nmul,
 		"known_findings_reproduced": kn, "encoding_mismatches": mismatches, "inconclusive": inconclusive, "unreached_assertions": reachFail,
